@@ -1011,8 +1011,8 @@ class C11(Monitor):
                 n = Q.nodes[nid]
                 opt = n.priority_preempt
                 cls = v[-1].customer_class
-                if opt is False or not finite(n) or Q.flags.get("class_change") or n.schedule is not None:
-                    continue
+                if opt is False or not finite(n) or Q.flags.get("class_change") or Q.flags.get("class_change_waiting") or n.schedule is not None:
+                    continue  # with class changes the sample stream of a visit is not determined by the record's class
                 S = Q.service_times[nid][cls]
                 if not hasattr(S, "log"):
                     continue
